@@ -529,10 +529,11 @@ func (m *c03Mapper) GetHandler(name string) (context.Handler, bool) {
 }
 
 type c03Stack struct {
-	ln  net.Listener
-	srv *http.Server
-	mu  sync.RWMutex
-	cur *mux
+	ln     net.Listener
+	srv    *http.Server
+	mu     sync.RWMutex
+	cur    *mux
+	mapper *c03Mapper
 }
 
 func (s *c03Stack) ServeHTTP(w http.ResponseWriter, r *http.Request) {
@@ -578,16 +579,71 @@ type c03Config struct {
 	RespAdaptor    map[string]interface{}
 	CacheSize      int                    // > 0: route cache of the HTTPServer (cacheSize)
 	MemoryCache    map[string]interface{} // memoryCache section of the pool, nil: none
+	LBPolicy       string                 // loadBalance.policy of the pool, "": no loadBalance section
+	LBHeaderKey    string                 // loadBalance.headerHashKey
+	Weights        []int                  // weight of the servers (ServerURL, MoreServers...), nil: none has a weight
+}
+
+// c03ServerSpec: the HTTPServer spec of cfg (one rule: the sentinel path, and everything else to the pipeline).
+func c03ServerSpec(cfg *c03Config) (*supervisor.Spec, error) {
+	path := map[string]interface{}{"pathPrefix": "/", "backend": c03PipelineName}
+	if cfg.PathLimit != 0 {
+		path["clientMaxBodySize"] = cfg.PathLimit
+	}
+	hs := map[string]interface{}{
+		"name": "c03-server", "kind": "HTTPServer", "port": 10080, "keepAlive": true, "https": false,
+		"rules": []interface{}{map[string]interface{}{"paths": []interface{}{
+			map[string]interface{}{"path": c03SentinelPath, "backend": "c03-no-such-backend"}, path}}},
+	}
+	if cfg.ServerLimit != 0 {
+		hs["clientMaxBodySize"] = cfg.ServerLimit
+	}
+	if cfg.CacheSize > 0 {
+		hs["cacheSize"] = cfg.CacheSize
+	}
+	hj, _ := json.Marshal(hs)
+	hspec, err := supervisor.NewSpec(string(hj))
+	if err != nil {
+		return nil, fmt.Errorf("httpserver spec: %v", err)
+	}
+	return hspec, nil
+}
+
+// update applies a changed HTTPServer spec to the installed mux the way HTTPServer hot updates do
+// (runtime.reload -> mux.reload): same mux, same pipeline.
+func (s *c03Stack) update(cfg *c03Config) error {
+	hspec, err := c03ServerSpec(cfg)
+	if err != nil {
+		return err
+	}
+	s.mu.RLock()
+	m, mapper := s.cur, s.mapper
+	s.mu.RUnlock()
+	if m == nil {
+		return errors.New("no mux installed")
+	}
+	m.reload(hspec, mapper)
+	return nil
 }
 
 // install builds a fresh mux and a fresh pipeline for cfg; the returned func tears them down.
 func (s *c03Stack) install(cfg *c03Config) (func(), error) {
-	server := map[string]interface{}{"url": cfg.ServerURL, "keepHost": cfg.KeepHost}
-	servers := []interface{}{server}
-	for _, u := range cfg.MoreServers {
-		servers = append(servers, map[string]interface{}{"url": u, "keepHost": cfg.KeepHost})
+	servers := []interface{}{}
+	for i, u := range append([]string{cfg.ServerURL}, cfg.MoreServers...) {
+		server := map[string]interface{}{"url": u, "keepHost": cfg.KeepHost}
+		if i < len(cfg.Weights) {
+			server["weight"] = cfg.Weights[i]
+		}
+		servers = append(servers, server)
 	}
 	pool := map[string]interface{}{"servers": servers}
+	if cfg.LBPolicy != "" {
+		lb := map[string]interface{}{"policy": cfg.LBPolicy}
+		if cfg.LBHeaderKey != "" {
+			lb["headerHashKey"] = cfg.LBHeaderKey
+		}
+		pool["loadBalance"] = lb
+	}
 	pspecMap := map[string]interface{}{"name": c03PipelineName, "kind": "Pipeline"}
 	if cfg.Retry > 0 {
 		pool["retryPolicy"] = "c03-retry"
@@ -627,32 +683,16 @@ func (s *c03Stack) install(cfg *c03Config) (func(), error) {
 	p := &pipeline.Pipeline{}
 	p.Init(pspec, nil)
 
-	path := map[string]interface{}{"pathPrefix": "/", "backend": c03PipelineName}
-	if cfg.PathLimit != 0 {
-		path["clientMaxBodySize"] = cfg.PathLimit
-	}
-	hs := map[string]interface{}{
-		"name": "c03-server", "kind": "HTTPServer", "port": 10080, "keepAlive": true, "https": false,
-		"rules": []interface{}{map[string]interface{}{"paths": []interface{}{
-			map[string]interface{}{"path": c03SentinelPath, "backend": "c03-no-such-backend"}, path}}},
-	}
-	if cfg.ServerLimit != 0 {
-		hs["clientMaxBodySize"] = cfg.ServerLimit
-	}
-	if cfg.CacheSize > 0 {
-		hs["cacheSize"] = cfg.CacheSize
-	}
-	hj, _ := json.Marshal(hs)
-	hspec, err := supervisor.NewSpec(string(hj))
+	hspec, err := c03ServerSpec(cfg)
 	if err != nil {
 		p.Close()
-		return nil, fmt.Errorf("httpserver spec: %v", err)
+		return nil, err
 	}
 	mapper := &c03Mapper{h: p}
 	m := newMux(httpstat.New(), httpstat.NewTopN(10), mapper)
 	m.reload(hspec, mapper)
 	s.mu.Lock()
-	s.cur = m
+	s.cur, s.mapper = m, mapper
 	s.mu.Unlock()
 	return func() {
 		s.mu.Lock()
